@@ -459,6 +459,13 @@ class Interp:
             return z3.Function("seq2val", smt.SeqVal, smt.Val)(z3.simplify(t))
         if isinstance(v, Opaque) and "term" in v.attrs:
             return v.attrs["term"]
+        if isinstance(v, SetObj) and (v.symbolic or v.hist is not None):
+            # a set is a function of its insertion history
+            t = v.log if v.symbolic else self.seq_term(ListObj(list(v.hist)))
+            return z3.Function("seq2set", smt.SeqVal, smt.Val)(z3.simplify(t))
+        if isinstance(v, DictObj) and (v.symbolic or v.hist is not None):
+            t = v.log if v.symbolic else self.seq_term(ListObj([(k, x) for k, x in v.hist]))
+            return z3.Function("seq2dict", smt.SeqVal, smt.Val)(z3.simplify(t))
         if isinstance(v, (Obj, Opaque, Closure, ClassRef, NativeClass, DictObj, SetObj)):
             oid = getattr(v, "oid", None)
             if oid is None:
@@ -1313,6 +1320,8 @@ class Interp:
             if isinstance(node.op, ast.USub):
                 if isinstance(v, (int, float)):
                     return -v
+                if isinstance(v, SV) and v.kind == "val":
+                    return ValSV(z3.Function("val_neg", smt.Val, smt.Val)(v.t))
                 return IntSV(-self.to_int(v))
             if isinstance(node.op, ast.UAdd):
                 return v
@@ -1441,7 +1450,15 @@ class Interp:
             ee = env.lookup_env(first)
             return SuperProxy(ee.vars[first], fn.owner_cls)
         f = self.eval(node.func, env)
-        args = self.eval_elts(node.args, env)
+        if len(node.args) == 1 and isinstance(node.args[0], ast.Starred):
+            sv = self.eval(node.args[0].value, env)
+            if isinstance(sv, SV) and sv.kind == "val":
+                # f(*x) for an arbitrary element x: one abstract argument "x unpacked" (same on both sides of a contract)
+                args = [ValSV(z3.Function("val_unpacked", smt.Val, smt.Val)(sv.t))]
+            else:
+                args = list(self.iterate(sv))
+        else:
+            args = self.eval_elts(node.args, env)
         kwargs = {}
         for kw in node.keywords:
             if kw.arg is None:
